@@ -281,10 +281,12 @@ func (c12) build(c *mon.Ctx, workload string, i int64) ([]*gt.T, *ref.Point) {
 	}
 	// sql
 	qs := []string{"select * from t where id = 1 and name = 'bob'", "INSERT INTO x VALUES (1, 'a', 2.5)", "update t set a=1 -- comment", "not sql at all", "select '", "",
-		"SELECT a FROM b WHERE c IN (1,2,3)", "select héllo from wörld where x = \"y\""}
+		"SELECT a FROM b WHERE c IN (1,2,3)", "select héllo from wörld where x = \"y\"",
+		"select * from t where dir = 'C:\\logs\\'", "select \"CORP\\svc_app\" from u", "select `a\\b` from t where x = 'it\\'s'", "select 'a\\\\' , 'b\\'"}
 	pt.Fields["q"] = qs[r.Intn(len(qs))]
+	pt.Fields["q2"] = qs[r.Intn(len(qs))]
 	subj := []string{"q", "q", "num", "absent"}[r.Intn(4)]
-	return []*gt.T{gt.Call("sql_cover", gt.Ident(subj)), gt.Call("p", gt.Ident("q"))}, pt
+	return []*gt.T{gt.Call("sql_cover", gt.Ident(subj)), gt.Call("sql_cover", gt.Ident("q2")), gt.Call("p", gt.Ident("q"), gt.Ident("q2"))}, pt
 }
 
 func (k c12) Describe(c *mon.Ctx, workload string, i int64) any {
